@@ -248,6 +248,15 @@ VARIANTS = {
     "fr-B4-id-kinds-swapped": ("frame.rs", rep(FR, "        let frame_id = if start_frame_flag {\n            FrameId::LastFrameId((((frame[0] & 0x0f) as u16) << 8) | frame[1] as u16)\n        } else {\n            FrameId::CurrentFrameId(", "        let frame_id = if !start_frame_flag {\n            FrameId::LastFrameId((((frame[0] & 0x0f) as u16) << 8) | frame[1] as u16)\n        } else {\n            FrameId::CurrentFrameId("), "src_fromUsartBody_eq"),
     "fr-B5-address-shift-in-u8": ("frame.rs", rep(FR, "let device_address = ((frame[2] as u16) << 8) | frame[3] as u16;", "let device_address = ((frame[2] << 8) as u16) | frame[3] as u16;"), "src_fromUsartBody_eq"),
     "fr-B6-data-from-4": ("frame.rs", rep(FR, "data[i] = frame[i + 5];", "data[i] = frame[i + 4];"), "src_fromUsartBody_eq"),
+    # ---- frame.rs: from_bxcan_frame
+    "cn-R1-mask-1": ("frame.rs", rep(FR, "let not_error_flag = ((id >> 28) & 0x0001) != 0;", "let not_error_flag = ((id >> 28) & 1) != 0;"), None),
+    "cn-R2-lets-reordered": ("frame.rs", rep(FR, "            let frame_id_nibble = ((id >> 16) & 0x000f) as u16;\n            let device_address = ((id >> 0) & 0xffff) as u16;", "            let device_address = ((id >> 0) & 0xffff) as u16;\n            let frame_id_nibble = ((id >> 16) & 0x000f) as u16;"), None),
+    "cn-R3-address-without-shift": ("frame.rs", rep(FR, "let device_address = ((id >> 0) & 0xffff) as u16;", "let device_address = (id & 0xffff) as u16;"), None),
+    "cn-B1-nibble-unmasked": ("frame.rs", rep(FR, "let frame_id_nibble = ((id >> 16) & 0x000f) as u16;", "let frame_id_nibble = ((id >> 16) & 0x00ff) as u16;"), "src_fromCan_eq"),
+    "cn-B2-zero-length-check-dropped": ("frame.rs", rep(FR, "                    if data_len == 0 {\n                        return Err(FrameError::FrameIdMissing);\n                    }\n\n", ""), "src_fromCan_eq"),
+    "cn-B3-single-keeps-start-flag": ("frame.rs", rep(FR, "                    let start_frame_flag = true;\n", ""), "src_fromCan_eq"),
+    "cn-B4-multi-bit-25": ("frame.rs", rep(FR, "let multi_frame_flag = ((id >> 26) & 0x0001) != 0;", "let multi_frame_flag = ((id >> 25) & 0x0001) != 0;"), "src_fromCan_eq"),
+    "cn-B5-id-from-second-byte": ("frame.rs", rep(FR, "FrameId::LastFrameId((frame_id_nibble << 8) | data[0] as u16)", "FrameId::LastFrameId((frame_id_nibble << 8) | data[1] as u16)"), "src_fromCan_eq"),
     # ---- event encoders
     "en-R1-vec-new": ("event/button.rs", rep(BU, "        let mut data = vec![];\n\n        for byte in u16::to_be_bytes(BUTTON_PRESSED_EVENT_CODE)", "        let mut data = Vec::new();\n\n        for byte in u16::to_be_bytes(BUTTON_PRESSED_EVENT_CODE)"), None),
     "en-B1-error-flag-set": ("event/button.rs", rep(BU, "            is_error: false,\n            device_address: self.receiver_address,", "            is_error: true,\n            device_address: self.receiver_address,"), "src_encode_buttonPressed"),
@@ -272,36 +281,49 @@ VARIANTS = {
 }
 
 
+def one(item):
+    name, (fname, text, expect) = item
+    d = os.path.join(SCRATCH, name)
+    os.makedirs(d)
+    shutil.copytree("/repo/src", os.path.join(d, "src"))
+    open(os.path.join(d, "src", fname), "w").write(text)
+    r = subprocess.run([os.path.join(V, "bin", "srccheck"), "--repo", d, "--work", os.path.join(d, "work")], stdout=subprocess.PIPE, text=True).stdout
+    shutil.rmtree(d, ignore_errors=True)
+    try:
+        return name, expect, json.loads(r), ""
+    except Exception:
+        return name, expect, None, r[-300:]
+
+
 def main():
-    only = sys.argv[1:]
+    from concurrent.futures import ThreadPoolExecutor
+    args = [a for a in sys.argv[1:] if not a.startswith("-j")]
+    jobs = 6
+    for a in sys.argv[1:]:
+        if a.startswith("-j"):
+            jobs = int(a[2:] or 6)
     bad = 0
     shutil.rmtree(SCRATCH, ignore_errors=True)
     os.makedirs(SCRATCH)
     try:
-        for name, (fname, text, expect) in VARIANTS.items():
-            if only and name not in only:
-                continue
-            shutil.rmtree(os.path.join(SCRATCH, "src"), ignore_errors=True)
-            shutil.copytree("/repo/src", os.path.join(SCRATCH, "src"))
-            open(os.path.join(SCRATCH, "src", fname), "w").write(text)
-            r = subprocess.run([os.path.join(V, "bin", "srccheck"), "--repo", SCRATCH, "--work", os.path.join(SCRATCH, "work")], stdout=subprocess.PIPE, text=True).stdout
-            try:
-                d = json.loads(r)
-            except Exception:
-                print(name, "ERROR", r[-300:])
-                bad += 1
-                continue
-            failed, untr = d["failed"], d["not_translated"]
-            if expect is None:
-                verdict = "ok (still proves)" if not failed else "FALSE ALARM"
-            elif expect in failed:
-                verdict = "ok (breaks %s)" % expect
-            elif untr:
-                verdict = "not translated (left to the correspondence check)"
-            else:
-                verdict = "MISSED"
-            bad += verdict in ("FALSE ALARM", "MISSED")
-            print("%-32s %-55s failed=%s not_translated=%s" % (name, verdict, failed, untr), flush=True)
+        items = [(n, v) for n, v in VARIANTS.items() if not args or n in args]
+        with ThreadPoolExecutor(max_workers=jobs) as ex:
+            for name, expect, d, err in ex.map(one, items):
+                if d is None:
+                    print(name, "ERROR", err)
+                    bad += 1
+                    continue
+                failed, untr = d["failed"], d["not_translated"]
+                if expect is None:
+                    verdict = "ok (still proves)" if not failed else "FALSE ALARM"
+                elif expect in failed:
+                    verdict = "ok (breaks %s)" % expect
+                elif untr:
+                    verdict = "not translated (left to the correspondence check)"
+                else:
+                    verdict = "MISSED"
+                bad += verdict in ("FALSE ALARM", "MISSED")
+                print("%-32s %-55s failed=%s not_translated=%s" % (name, verdict, failed, untr), flush=True)
     finally:
         shutil.rmtree(SCRATCH, ignore_errors=True)
     sys.exit(1 if bad else 0)
